@@ -301,10 +301,18 @@ def reuse_check(ctx, dgrams, fresh_obs, keyp):
     # batch parsing: many objects parse, all are kept and read only after the whole batch - a parsed message must not change when
     # another object parses another datagram (no field / burst storage shared between objects)
     held = []
+    shared = bytearray()         # ONE receive buffer overwritten by every datagram (as a receive loop does): a parsed message must
+                                 # own its data - it may neither change with the buffer nor pin the buffer (BufferError on resize)
     for j, t in enumerate(dgrams[:400]):
         o = new_obj(t[0])
         try:
-            o.parse_msg(bytearray(t[1]))
+            shared[:] = bytes(t[1])
+        except BufferError:
+            ctx.oracle_fail("a parsed message keeps a view into the caller's datagram buffer: the buffer cannot be reused for the next datagram",
+                            dict(kind=dgrams[j - 1][0] if j else t[0], position=j), key=keyp + ":aliased-input")
+            shared = bytearray(bytes(t[1]))
+        try:
+            o.parse_msg(shared)
             held.append((j, o))
         except Exception:  # noqa
             pass
